@@ -424,7 +424,7 @@ func (e EvmEngine) genC10(r *Run) Step {
 		return blk(pc(att, "staking", "withdraw", val()))
 	case 4: // governance switch with mixed-case spellings
 		var list []string
-		if r.Pct(70) {
+		for n := 0; n < 1+r.Rng.IntN(3) && r.Pct(80); n++ {
 			addr := stakingtypes.GetAddress()
 			ab := stakingtypes.GetABI()
 			if r.Pct(50) {
